@@ -215,4 +215,15 @@ theorem batch_sizes_fit_partial :
 example : nonZeroPrevPowerOfTwo (max 2 (targetProofSizeProd / convChunk / convGates)) = 256 ∧
     2 ≤ targetProofSizeProd / convChunk / convGates := by decide
 
+/-- the model's (= the code's) Lagrange denominators for N = 4 and N = 7 are the inverses of
+`Π_{j≠i} (i − j)` = −6, 2, −2, 6 resp. 720, −120, 48, −36, 48, −120, 720. -/
+theorem lagrange_denominators :
+    (∃ d, denominators 4 = some d ∧ d.length = 4 ∧
+      ((d.zip [fp61.p - 6, 2, fp61.p - 2, 6]).all fun (a, b) => a < fp61.p && a * b % fp61.p == 1) = true) ∧
+    (∃ d, denominators 7 = some d ∧ d.length = 7 ∧
+      ((d.zip [720, fp61.p - 120, 48, fp61.p - 36, 48, fp61.p - 120, 720]).all
+        fun (a, b) => a < fp61.p && a * b % fp61.p == 1) = true) := by
+  refine ⟨⟨(denominators 4).getD [], by decide +kernel, by decide +kernel, by decide +kernel⟩,
+          ⟨(denominators 7).getD [], by decide +kernel, by decide +kernel, by decide +kernel⟩⟩
+
 end IpaVerif.C03
